@@ -50,13 +50,131 @@ Fixpoint rows_match (fuel : nat) (a : tdb) (ia : nat) (b : tdb) (ib : nat) : boo
       end
   end.
 
-Inductive ccase :=
+Inductive tcase :=
 | CTok (orig : ptok) (rows : tdb) (root : nat) (loaded : option ptok).
 
-Definition check_case (c : ccase) : bool :=
+Definition check_tcase (c : tcase) : bool :=
   match c with
   | CTok orig rows root loaded =>
       let fuel := S (length rows) in
       opt_eqb ptok_eqb (load fuel rows root) loaded &&
       (let '(i, d) := save orig [] in rows_match (S (length d)) d i rows root && Nat.eqb (length d) (length rows))
   end.
+
+(* ------------------------------------------------------------------ whole workflows (Persist/WfModel.v)
+   CWf orig db wid loaded: the workflow [orig] was saved by the real Workflow.save into an empty database whose
+   workflow / port / step / dependency tables afterwards are [db]; the real load of [wid] produced [loaded].
+   Checked: the model's loader on the real tables yields the real result; the model's save of [orig] into the empty
+   database yields the same tables.  Maps, ports, steps and dependency rows are compared by name / as sets (dict
+   insertion order, the interleaving of concurrent INSERTs and SQLite's row order are not modelled); step ids are
+   matched through the step names. *)
+From SF Require Export Persist.WfModel.
+
+Definition smap_eqb (a b : list (string * string)) : bool :=
+  Nat.eqb (length a) (length b) &&
+  forallb (fun kv => match alookup (fst kv) b with Some v => String.eqb v (snd kv) | None => false end) a.
+
+Definition ccls_eqb (a b : ccls) : bool :=
+  match a, b with
+  | CDot, CDot => true
+  | CCart x, CCart y => Z.eqb x y
+  | CLoop, CLoop => true
+  | CLoopTerm x, CLoopTerm y => list_eqb String.eqb x y
+  | _, _ => false
+  end.
+
+Fixpoint pcomb_eqb (a b : pcomb) : bool :=
+  match a, b with
+  | PComb c n it cm ks subs, PComb c' n' it' cm' ks' subs' =>
+      ccls_eqb c c' && String.eqb n n' && list_eqb String.eqb it it' && smap_eqb cm cm' && list_eqb String.eqb ks ks' &&
+      (fix go (x y : list pcomb) : bool :=
+         match x, y with
+         | [], [] => true
+         | a :: x', b :: y' => pcomb_eqb a b && go x' y'
+         | _, _ => false
+         end) subs subs'
+  end.
+
+Fixpoint dcomb_eqb (a b : dcomb) : bool :=
+  match a, b with
+  | DComb c n w it cm ks subs, DComb c' n' w' it' cm' ks' subs' =>
+      ccls_eqb c c' && String.eqb n n' && Nat.eqb w w' && list_eqb String.eqb it it' && smap_eqb cm cm' &&
+      list_eqb String.eqb ks ks' &&
+      (fix go (x y : list dcomb) : bool :=
+         match x, y with
+         | [], [] => true
+         | a :: x', b :: y' => dcomb_eqb a b && go x' y'
+         | _, _ => false
+         end) subs subs'
+  end.
+
+Definition skind_eqb (a b : skind) : bool :=
+  match a, b with
+  | KScatter, KScatter => true
+  | KGather x, KGather y => Z.eqb x y
+  | KComb x, KComb y => pcomb_eqb x y
+  | _, _ => false
+  end.
+
+Definition pstep_eqb (a b : pstep) : bool :=
+  String.eqb (s_name a) (s_name b) && skind_eqb (s_kind a) (s_kind b) && Z.eqb (s_status a) (s_status b) &&
+  smap_eqb (s_in a) (s_in b) && smap_eqb (s_out a) (s_out b).
+
+Definition pport_eqb (a b : pport) : bool := String.eqb (p_name a) (p_name b) && String.eqb (p_cls a) (p_cls b).
+
+Definition set_eqb {A} (eqb : A -> A -> bool) (a b : list A) : bool :=
+  Nat.eqb (length a) (length b) && forallb (fun x => existsb (eqb x) b) a && forallb (fun y => existsb (fun x => eqb x y) a) b.
+
+Definition pwf_eqb (a b : pwf) : bool :=
+  String.eqb (w_name a) (w_name b) && jv_eqb (w_config a) (w_config b) && smap_eqb (w_inp a) (w_inp b) &&
+  smap_eqb (w_outp a) (w_outp b) && set_eqb pport_eqb (w_ports a) (w_ports b) && set_eqb pstep_eqb (w_steps a) (w_steps b).
+
+(* a step row together with its dependency rows, ids of the step replaced by its position-independent content *)
+Definition dparams_eqb (a b : dparams) : bool :=
+  match a, b with
+  | DScatter x, DScatter y => Nat.eqb x y
+  | DGather d x, DGather d' y => Z.eqb d d' && Nat.eqb x y
+  | DCombP x, DCombP y => dcomb_eqb x y
+  | _, _ => false
+  end.
+
+Definition dep_eqb (a b : nat * bool * string) : bool :=
+  Nat.eqb (fst (fst a)) (fst (fst b)) && Bool.eqb (snd (fst a)) (snd (fst b)) && String.eqb (snd a) (snd b).
+
+Definition canon_steps (d : wdb) : list (srow * list (nat * bool * string)) :=
+  map (fun ir => (snd ir, map (fun r => (d_port r, d_in r, d_name r))
+                              (filter (fun r => Nat.eqb (d_step r) (fst ir)) (t_dep d))))
+      (with_ids 0 (t_step d)).
+
+Definition cstep_eqb (a b : srow * list (nat * bool * string)) : bool :=
+  String.eqb (sr_name (fst a)) (sr_name (fst b)) && Nat.eqb (sr_wf (fst a)) (sr_wf (fst b)) &&
+  Z.eqb (sr_status (fst a)) (sr_status (fst b)) && dparams_eqb (sr_params (fst a)) (sr_params (fst b)) &&
+  set_eqb dep_eqb (snd a) (snd b).
+
+Definition wrow_eqb (a b : wrow) : bool :=
+  String.eqb (wr_name a) (wr_name b) && jv_eqb (wr_config a) (wr_config b) && smap_eqb (wr_inp a) (wr_inp b) &&
+  smap_eqb (wr_outp a) (wr_outp b).
+Definition prow_eqb (a b : prow) : bool :=
+  String.eqb (pr_name a) (pr_name b) && Nat.eqb (pr_wf a) (pr_wf b) && String.eqb (pr_cls a) (pr_cls b).
+
+Definition wdb_eqb (a b : wdb) : bool :=
+  list_eqb wrow_eqb (t_wf a) (t_wf b) && list_eqb prow_eqb (t_port a) (t_port b) &&
+  set_eqb cstep_eqb (canon_steps a) (canon_steps b) && Nat.eqb (length (t_dep a)) (length (t_dep b)).
+
+Inductive wcase :=
+| CWf (orig : pwf) (db : wdb) (wid : nat) (loaded : option pwf).
+
+Definition check_wcase (c : wcase) : bool :=
+  match c with
+  | CWf orig db wid loaded =>
+      opt_eqb pwf_eqb (load_wf db wid) loaded &&
+      match save_wf orig (mkwdb [] [] [] []) with
+      | Some (i, d) => Nat.eqb i wid && wdb_eqb d db
+      | None => false
+      end
+  end.
+
+(* one case type for the harness *)
+Inductive ccase := XTok (c : tcase) | XWf (c : wcase).
+Definition check_case (c : ccase) : bool :=
+  match c with XTok c => check_tcase c | XWf c => check_wcase c end.
